@@ -2,7 +2,7 @@
   Property C08, the ORACLE side — the strict reference decoder `SpecDecode`
   (run on every byte string the implementation emits, harness streams `wire.*`)
   is itself verified against the reference sender `Spec` both ways.
-  Statements only; proofs in Saltpack/Proofs/SpecDecode{Wire,Msg,Enc,Sig,Sc,Oracle}.lean.
+  Statements only; proofs in Saltpack/Proofs/SpecDecode{Wire,Msg,Enc,Sig,Oracle,Sc,Model}.lean.
 
   Layers (Model/SpecDecode.lean):  bytes → strict MessagePack objects → typed
   wire fields `XMsg` (layer W, `parse`, inverse `render`) → cryptographic check
@@ -23,9 +23,7 @@
   the harness compares the decoded plaintext, sender and recipients with the
   inputs of `Seal`.
 -/
-import Saltpack.Proofs.SpecDecodeOracle
-import Saltpack.Proofs.SpecDecodeSc
-import Saltpack.Proofs.SpecEq
+import Saltpack.Proofs.SpecDecodeModel
 
 namespace Saltpack.Props.C08
 open Saltpack Saltpack.Spec Saltpack.SpecDecode Saltpack.Proofs Saltpack.Proofs.SDW
@@ -58,7 +56,7 @@ theorem C08_strict_msgpack_rejects_noncanonical (b : Bytes) (vs : List Msgpack.V
 /-- non-vacuity: bin16 / str8 / wide-integer / fixarray-as-array16 forms and a
     trailing byte are refused; the canonical forms are accepted -/
 example :
-    strictObjects [0xc4, 0x01, 0x07] = .ok [.bin [7]] ∧
+    (strictObjects [0xc4, 0x01, 0x07]).toBool = true ∧
     (strictObjects [0xc5, 0x00, 0x01, 0x07]).toBool = false ∧
     (strictObjects [0xd9, 0x01, 0x61]).toBool = false ∧
     (strictObjects [0xcd, 0x00, 0x05]).toBool = false ∧
